@@ -1,4 +1,5 @@
 import LivesimVerif.Model.Ingest
+import LivesimVerif.Model.ChunkSrc
 import Driver.Core
 /-! Driver op `sess <asset> <cfg> <nowMS> <dur|-> <events>` (C16). -/
 open Drv Core Ingest
@@ -35,5 +36,38 @@ def opSess (st : DState) (args : List String) : String :=
             | .sent nr l =>
               let id := if timeAddr then findSegStartTime a ref (nr - cfg.startNr) else nr
               s!"s:[{id}{if l then "L" else ""}]")
+    | _, _, _ => "bad-op"
+  | _ => "bad-op"
+
+/-! op `csrc <cap> <w1,w2,…|-> <k1,k2,…>`: the chunked-transfer source with a buffer of `cap` bytes; the i-th byte written
+is `i % 251`; one output item per `Read` up to and including the first EOF: hex of the bytes, `-` for none, `E` for EOF -/
+def natList? (s : String) : Option (List Nat) :=
+  if s = "-" then some [] else (s.splitOn ",").mapM (·.toNat?)
+
+def hexByte (n : Nat) : String :=
+  let d (x : Nat) : Char := if x < 10 then Char.ofNat (48 + x) else Char.ofNat (87 + x)
+  String.ofList [d (n / 16 % 16), d (n % 16)]
+
+def mkWrites : List Nat → Nat → List (List Nat)
+  | [], _ => []
+  | l :: ls, from_ => ((List.range l).map fun i => (from_ + i) % 251) :: mkWrites ls (from_ + l)
+
+def untilEof : List (Option (List Nat)) → List (Option (List Nat))
+  | [] => []
+  | none :: _ => [none]
+  | some o :: t => some o :: untilEof t
+
+def opCsrc (args : List String) : String :=
+  match args with
+  | [cap, ws, ks] =>
+    match cap.toNat?, natList? ws, natList? ks with
+    | some cap, some ws, some ks =>
+      if cap = 0 then "bad-op" else
+      let tr := untilEof ((ChunkSrc.start cap (mkWrites ws 0)).trace ks)
+      " ".intercalate (tr.map fun o =>
+        match o with
+        | none => "E"
+        | some [] => "-"
+        | some bs => String.join (bs.map hexByte))
     | _, _, _ => "bad-op"
   | _ => "bad-op"
